@@ -13,12 +13,12 @@ structure InvA (s : State) : Prop where
   lock_iff : s.lock = s.isOpen
   closed_idle : s.isOpen = false → s.job = none ∧ s.mergeW = [] ∧ s.pending = [] ∧ s.rootSegs = [] ∧ s.rootMem = []
   mem_sub : ∀ x ∈ s.rootMem, x ∈ s.rootSegs
-  used_root : ∀ x ∈ s.rootSegs, x ∈ s.used
-  used_pending : ∀ x ∈ s.pending, x ∈ s.used
-  used_mergeW : ∀ x ∈ s.mergeW, x ∈ s.used
-  used_known : ∀ x ∈ s.pol.known, x ∈ s.used
-  used_job : jobP s fun j => (∀ x ∈ j.segs, x ∈ s.used) ∧ (∀ x ∈ j.todo, x ∈ s.used) ∧ (∀ x ∈ j.written, x ∈ s.used) ∧ (∀ x, j.cur = some x → x ∈ j.todo)
-  used_snaps : ∀ f ∈ s.disk.snaps, ∀ x ∈ f.segs, x ∈ s.used
+  used_root : ∀ x ∈ s.rootSegs, isUsed s x
+  used_pending : ∀ x ∈ s.pending, isUsed s x
+  used_mergeW : ∀ x ∈ s.mergeW, isUsed s x
+  used_known : ∀ x ∈ s.pol.known, isUsed s x
+  used_job : jobP s fun j => (∀ x ∈ j.segs, isUsed s x) ∧ (∀ x ∈ j.todo, isUsed s x) ∧ (∀ x ∈ j.written, isUsed s x) ∧ (∀ x, j.cur = some x → x ∈ j.todo)
+  used_snaps : ∀ f ∈ s.disk.snaps, f.complete = true → ∀ x ∈ f.segs, isUsed s x
   snap_nodup : (s.disk.snaps.map (·.epoch)).Nodup
   snap_uniq : ∀ f ∈ s.disk.snaps, ∀ g ∈ s.disk.snaps, f.epoch = g.epoch → f = g
   -- epochs
@@ -31,10 +31,10 @@ structure InvA (s : State) : Prop where
   p1 : jobP s fun j => ¬ j.phase.writing → j.todo = [] ∧ j.cur = none
 
 structure InvB (s : State) : Prop where
-  mi : ∀ x ∈ s.mergeW, x ∉ s.rootSegs ∧ x ∉ s.pending ∧ (∀ f ∈ s.disk.snaps, x ∉ f.segs) ∧ x ∉ s.pol.known ∧
+  mi : ∀ x ∈ s.mergeW, x ∉ s.rootSegs ∧ x ∉ s.pending ∧ (∀ f ∈ s.disk.snaps, f.complete = true → x ∉ f.segs) ∧ x ∉ s.pol.known ∧
         jobP s fun j => x ∉ j.segs ∧ x ∉ j.written ∧ x ∉ j.todo
-  rm : ∀ x ∈ s.rootMem, x ∉ s.pending ∧ x ∉ s.pol.known ∧ ∀ f ∈ s.disk.snaps, x ∉ f.segs
-  tn : jobP s fun j => ∀ x ∈ j.todo, x ∉ s.pending ∧ x ∉ s.pol.known ∧ (∀ f ∈ s.disk.snaps, x ∉ f.segs) ∧
+  rm : ∀ x ∈ s.rootMem, x ∉ s.pending ∧ x ∉ s.pol.known ∧ ∀ f ∈ s.disk.snaps, f.complete = true → x ∉ f.segs
+  tn : jobP s fun j => ∀ x ∈ j.todo, x ∉ s.pending ∧ x ∉ s.pol.known ∧ (∀ f ∈ s.disk.snaps, f.complete = true → x ∉ f.segs) ∧
         x ∉ j.written ∧ (x ∈ s.rootSegs → x ∈ s.rootMem)
   jr : jobP s fun j => ∀ x ∈ j.segs, x ∈ s.rootMem → j.phase.writing ∧ (j.phase = .segs → x ∈ j.todo ∨ x ∈ j.written)
   pd : ∀ x ∈ s.pending, s.disk.segOK x = true ∧ x ∉ s.pol.known ∧ x ∉ s.rootSegs ∧
